@@ -174,6 +174,9 @@ func genResOf(r *Rng, st stype, o *Out) jsonapi.Resource {
 	if st.backed {
 		res = newWrapped(typ)
 	} else {
+		if r.chance(1, 5) {
+			return newSoftShrunk(r, typ, id, vals, o)
+		}
 		sr := newSoftVia(r, typ, o)
 		res = sr
 		if r.chance(1, 3) {
